@@ -66,8 +66,10 @@ VOID_LEAVES = [
 
 
 def rich_leaf(tfy: bool = True, plain_only: bool = False):
-    text = st.builds(lambda s: {"k": "text", "s": s}, st.one_of(gen.safe_text(0, 4), gen.hot_text(3)))
-    html = st.builds(lambda s: {"k": "html", "s": s}, st.one_of(st.sampled_from(["<b>x</b>", "&amp;", ""]), gen.hot_text(3)))
+    # the same short strings occur as plain text and as HTML(): equal, equally hashing, differently rendered
+    TWINS = ["<b>x</b>", "&amp;", "", "<b>", "a&b", "&lt;"]
+    text = st.builds(lambda s: {"k": "text", "s": s}, st.one_of(gen.safe_text(0, 4), gen.hot_text(3), st.sampled_from(TWINS)))
+    html = st.builds(lambda s: {"k": "html", "s": s}, st.one_of(st.sampled_from(TWINS), gen.hot_text(3)))
     # the two definitions with equal name + version and different content are made frequent: trees holding both
     dep = st.one_of(st.sampled_from(DEP_POOL[:-1] if plain_only else DEP_POOL), st.sampled_from([DEP_POOL[0], DEP_POOL[6]]))
     alts = [text, text, html, dep, dep, st.sampled_from(VOID_LEAVES)]
@@ -176,7 +178,7 @@ def op_strategy():
 
 
 def purity_case():
-    return st.fixed_dictionaries({"pool": st.lists(pool_objects(), min_size=2, max_size=4), "ops": st.lists(op_strategy(), min_size=3, max_size=18), "flaky": st.sampled_from([0, 0, 1, 2]), "twins": st.sampled_from([False, False, True])})
+    return st.fixed_dictionaries({"pool": st.lists(pool_objects(), min_size=2, max_size=4), "ops": st.lists(op_strategy(), min_size=3, max_size=18), "flaky": st.sampled_from([0, 0, 1, 2]), "twins": st.sampled_from([False, False, True]), "text_twins": st.sampled_from([False, False, True])})
 
 
 def _make_flaky(r, budget):
@@ -341,6 +343,12 @@ def _purity(case, note, tmp):
         n0 = len(case["pool"])
         case = dict(case, pool=case["pool"] + [{"o": "dep", "r": DEP_POOL[0]}, {"o": "dep", "r": DEP_POOL[6]}],
                     ops=list(case["ops"]) + [[n0, "source_path_map", ["lib", True]], [n0 + 1, "source_path_map", ["lib", True]], [n0, "as_dict", ["lib", True]], [n0 + 1, "as_html_tags", ["lib", False]], [n0, "source_path_map", ["lib", True]]])
+    if case.get("text_twins"):
+        # the same characters once as trusted markup and once as plain text, in two trees rendered in turn
+        n0 = len(case["pool"])
+        tw = lambda kind, t: {"o": "tag", "r": {"k": "tag", "name": "div", "ws": True, "attrs": [], "kids": [{"k": kind, "s": t}]}}
+        case = dict(case, pool=case["pool"] + [tw("html", "<b>x</b>"), tw("text", "<b>x</b>"), tw("html", "a&b")],
+                    ops=list(case["ops"]) + [[n0, "ghs", [0, "\n"]], [n0 + 1, "str", False], [n0, "ghs", [0, "\n"]], [n0, "render", False], [n0 + 1, "ghs", [0, "\n"]], [n0, "str", False], [n0 + 1, "ghs", [0, "\n"]], [n0 + 1, "str", False], [n0, "str", False]])
     pool = [build_pool_obj(p) for p in case["pool"]]
     kinds = [p["o"] for p in case["pool"]]
     base = [S.snap(o) for o in pool]
